@@ -13,6 +13,7 @@ import YardlModel.Json
 import YardlModel.Plan
 import YardlModel.SyntaxJson
 import YardlModel.TypeParser
+import YardlModel.Determinism
 import YardlModel.Evolution
 import YardlModel.Topo
 import YardlModel.Names
@@ -514,6 +515,16 @@ def handle (j : Json) : Except String Json := do
         | .ok vj => do pure (Json.str (toHex (enc t (← valOfJson vj))))
         | .error _ => pure Json.null
       pure (Json.mkObj [("plan", Schema.tyToJson t), ("hex", hex)])
+  | "write_if_needed" =>
+    -- Det.writeIfNeeded on the file contents the Go harness builds (same byte pattern)
+    let pat (n : Nat) : List UInt8 := (List.range n).map fun i => UInt8.ofNat ((i * 31 + i / 4096 * 7 + 11) % 251)
+    let oldSize ← (← j.getObjVal? "old_size").getInt?
+    let newSize ← (← j.getObjVal? "new_size").getNat?
+    let flip ← (← j.getObjVal? "flip").getInt?
+    let content := (pat newSize).mapIdx fun i b => if flip ≥ 0 && i == flip.toNat then b ^^^ 0x5a else b
+    let fs : Det.Fs := if oldSize < 0 then [] else [(1, pat oldSize.toNat)]
+    let r := Det.writeIfNeeded (fs, []) (1, content)
+    pure (Json.mkObj [("touched", Json.bool (!r.2.isEmpty)), ("content_ok", Json.bool (r.1.get 1 == some content))])
   | "parse_type" =>
     -- the shorthand text of a type through the scanner and the recursive-descent parser of the model
     let text ← (← j.getObjVal? "text").getStr?
